@@ -475,6 +475,7 @@ class GThread(object):
     def start(self):
         parent = cur_act()
         a = Activity('chain', parent.desc if parent else 'main', self.target)
+        a.parent = parent
         q = _find_queue(self.target)
         if q is not None:
             a.chain_ops = [_describe_op(*t) for t in q]
@@ -878,10 +879,22 @@ def enabled_choices():
         ch.append(Choice(m.label, 'msg', m, m.seq, m.desc()))
     ch.sort(key=lambda c: c.seq)
     if W.last_act is not None:
+        first = None
         for i, c in enumerate(ch):
             if c.obj is W.last_act:
-                ch.insert(0, ch.pop(i))
+                first = i
                 break
+        if first is None:
+            # the activity that ran last has finished: the post-commit
+            # thread it spawned runs next (what the real process does right
+            # after the commit), before older pending messages
+            for i, c in enumerate(ch):
+                if c.kind == 'act' and getattr(c.obj, 'parent',
+                                               None) is W.last_act:
+                    first = i
+                    break
+        if first is not None:
+            ch.insert(0, ch.pop(first))
     for s in SCHEDULERS:
         if s.poll_enabled():
             ch.append(Choice('P' + s.name, 'poll', s, 10 ** 9, 'poll'))
